@@ -367,3 +367,10 @@ def run(cx, out):
         check_endianness(out, facts)
         check_type_info(out, facts)
         check_panics(out, facts, S)
+    # derived impls: the derive corpus of C05
+    from . import c05 as _c05
+    from ..report import Out as _Out
+    _sub = _Out('C05')
+    _c05.run(cx, _sub)
+    out.rule('R05.1', 'derived encoders (struct/enum layouts, index bytes) equal the layout declared by the definition (derive corpus of C05)')
+    out.absorb(_sub, {'R05.1'})
